@@ -168,6 +168,32 @@ func c12Family(x int, bps, lo, hi int64) {
 	vp.Assert(false, "Create returned without writing a boot sector")
 }
 
-func VP_C12_fat_family_12() { c12Family(12, 512, 0, fat12.Fat12MaxSize+512) }
-func VP_C12_fat_family_16() { c12Family(16, 512, 0, fat12.Fat16MaxSize+512) }
-func VP_C12_fat_family_32() { c12Family(32, 512, 0, fat32.Fat32MaxSize+512) }
+// One harness per row of each Create's cluster-size table, so that sectors-per-cluster is a
+// constant in every query; together the rows cover every size from 0 to beyond the type's maximum.
+const (
+	c12MB = int64(1) << 20
+	c12GB = int64(1) << 30
+)
+
+func VP_C12_fat_family_12_a() { c12Family(12, 512, 0, 2*c12MB) }
+func VP_C12_fat_family_12_b() { c12Family(12, 512, 2*c12MB+1, 4*c12MB) }
+func VP_C12_fat_family_12_c() { c12Family(12, 512, 4*c12MB+1, 8*c12MB-1) }
+func VP_C12_fat_family_12_d() { c12Family(12, 512, 8*c12MB, 16*c12MB) }
+func VP_C12_fat_family_12_e() { c12Family(12, 512, 16*c12MB+1, 32*c12MB) }
+func VP_C12_fat_family_12_f() { c12Family(12, 512, 32*c12MB+1, 64*c12MB) }
+func VP_C12_fat_family_12_g() { c12Family(12, 512, 64*c12MB+1, fat12.Fat12MaxSize+512) }
+
+func VP_C12_fat_family_16_a() { c12Family(16, 512, 0, 32*c12MB) }
+func VP_C12_fat_family_16_b() { c12Family(16, 512, 32*c12MB+1, 128*c12MB) }
+func VP_C12_fat_family_16_c() { c12Family(16, 512, 128*c12MB+1, 256*c12MB) }
+func VP_C12_fat_family_16_d() { c12Family(16, 512, 256*c12MB+1, 512*c12MB) }
+func VP_C12_fat_family_16_e() { c12Family(16, 512, 512*c12MB+1, c12GB) }
+func VP_C12_fat_family_16_f() { c12Family(16, 512, c12GB+1, fat12.Fat16MaxSize+512) }
+
+func VP_C12_fat_family_32_512_a()  { c12Family(32, 512, 0, 260*c12MB) }
+func VP_C12_fat_family_32_512_b()  { c12Family(32, 512, 260*c12MB+1, 8*c12GB) }
+func VP_C12_fat_family_32_512_c()  { c12Family(32, 512, 8*c12GB+1, 16*c12GB) }
+func VP_C12_fat_family_32_512_d()  { c12Family(32, 512, 16*c12GB+1, 32*c12GB) }
+func VP_C12_fat_family_32_512_e()  { c12Family(32, 512, 32*c12GB+1, fat32.Fat32MaxSize+512) }
+func VP_C12_fat_family_32_4096_a() { c12Family(32, 4096, 0, 8*c12GB) }
+func VP_C12_fat_family_32_4096_b() { c12Family(32, 4096, 8*c12GB+1, fat32.Fat32MaxSize+4096) }
